@@ -185,7 +185,7 @@ prop("C17", "c17",
      "The thorough tier repeats a quarter of the histories against the crate built with its `nightly` feature (the ptr_metadata implementation of the meta table) on the nightly toolchain. "
      "distinct non-trivial = history hash with a repeated registration and a registered-but-absent type.",
      crash_is_violation=True,
-     thorough=[shards(name="main"), san("asan", name="asan", scale=0.1), san("tsan", name="tsan", args=["--concurrent-only"], scale=0.002), miri(name="miri", args=["--small"], scale=0.00016), shards(name="nightly-meta", build="nightlymeta", optional=True, scale=0.25)])
+     thorough=[shards(name="main"), san("asan", name="asan", scale=0.1), san("tsan", name="tsan", args=["--concurrent-only"], scale=0.03), miri(name="miri", args=["--small"], scale=0.00016), shards(name="nightly-meta", build="nightlymeta", optional=True, scale=0.25)])
 
 prop("C06", "c06",
      "cases = Rust *programs*: SystemData type expressions generated by gen_c06.py, compiled against /repo and run. Families: (i) rotation - every arity 1..26 x 12 rotations of the member kinds (Read, Write, ReadExpect, WriteExpect, Option<Read>, Option<Write>, (), PhantomData, nested tuple, derived struct, Read/Write with a user-written SetupHandler), position p on its own resource A_p; (ii) random per seed - nestings to depth 3, tuples up to arity 26, derived named and tuple structs with an extra lifetime, redundant where-clauses, hand-written generic derives (type parameters, where-clauses, two lifetimes), repeated reads of one resource and (15%) deliberately conflicting members; (iii) thorough only: the full cross family, every (arity, position, kind) triple as its own type. "
